@@ -42,6 +42,11 @@ def children_table(ctx):
             ctx.mismatch(c, impl, rep.get("model", rep))
 
 
+def _strip(rep):
+    """report without the suite names (they contain the temporary directory)"""
+    return [s[1:] for s in rep] if isinstance(rep, list) else rep
+
+
 def _cls(f5):
     return "F5" if f5 is True else None
 
@@ -70,6 +75,12 @@ def evaluate_files(ctx, items, wd):
                 if hyp:
                     mex, mrep = cs.parse_model_report(rep["model"])
                     if mex != oc or mrep != r["rep"]:
+                        r2 = cs.run_file_scenario(sc, wd, junit=True)
+                        if cs.outcome_class(r2["out"]) != oc or _strip(r2["rep"]) != _strip(r["rep"]):
+                            ctx.dist["impl-nonreproducible"] += 1
+                            ctx.notes.append("implementation outcome not reproducible on immediate re-run: "
+                                             f"first={r['out']} second={r2['out']} options={cs.option_argv(sc)}")
+                            continue
                         ctx.mismatch(sc, [r["out"], r["rep"]], [mex, mrep])
                     lean_cls = rep.get("cls")
                     # theorem re-checks: skipped entries of the model = the spec's; spec verdict vs class
